@@ -130,6 +130,24 @@ func (ev *SpecEval) eval(e SExpr) (TV, error) {
 	return TV{}, fmt.Errorf("unsupported spec expression %s", e)
 }
 
+// closed records the heap-closure fact for a value read from the heap in the evaluation state: what an
+// allocated object refers to is itself allocated (and well-typed).
+func (ev *SpecEval) closed(base, val string, t types.Type) {
+	c := ev.c
+	if c.specDepth > 0 || t == nil {
+		return
+	}
+	_, isSl := t.Underlying().(*types.Slice)
+	if !isSl && !isRefLike(t) {
+		return
+	}
+	f := c.typeFact(val, t, ev.st, 0)
+	if f == "true" {
+		return
+	}
+	c.lines = append(c.lines, fmt.Sprintf("(assert (=> (and (not (= %s 0)) (< %s %s)) %s))", base, base, ev.st.alloc, f))
+}
+
 func (ev *SpecEval) unifyNil(a, b TV) (TV, TV) {
 	isNil := func(t TV) bool {
 		bt, ok := t.Typ.(*types.Basic)
@@ -259,26 +277,31 @@ func (ev *SpecEval) quant(x *SQuant) (TV, error) {
 	savedErr := ev.c.specErr
 	ev.c.specErr = ""
 	body, err := sub.eval(x.Body)
+	var trig string
+	var terr error
+	if err == nil && len(x.Trig) > 0 {
+		var ts []string
+		for _, t := range x.Trig {
+			tv, e2 := sub.eval(t)
+			if e2 != nil {
+				terr = e2
+				break
+			}
+			ts = append(ts, tv.T)
+		}
+		trig = " :pattern (" + strings.Join(ts, " ") + ")"
+	}
 	bad := ev.c.specErr
 	ev.c.specErr = savedErr
 	ev.c.specDepth--
 	if err != nil {
 		return TV{}, err
 	}
+	if terr != nil {
+		return TV{}, terr
+	}
 	if bad != "" {
 		return TV{}, fmt.Errorf("quantifier body: %s", bad)
-	}
-	var trig string
-	if len(x.Trig) > 0 {
-		var ts []string
-		for _, t := range x.Trig {
-			tv, err := sub.eval(t)
-			if err != nil {
-				return TV{}, err
-			}
-			ts = append(ts, tv.T)
-		}
-		trig = " :pattern (" + strings.Join(ts, " ") + ")"
 	}
 	q := "exists"
 	bt := body.T
@@ -300,6 +323,25 @@ func (ev *SpecEval) ident(name string) (TV, error) {
 	c := ev.c
 	if v, ok := ev.bound[name]; ok {
 		return v, nil
+	}
+	// inside a loop invariant the loop-carried value of a variable shadows its entry value
+	if ev.header != nil && ev.fr != nil {
+		for _, ins := range ev.header.Instrs {
+			phi, ok := ins.(*ssa.Phi)
+			if !ok {
+				break
+			}
+			if phi.Comment == name {
+				if ev.phis != nil {
+					if v, ok := ev.phis[phi]; ok {
+						return TV{T: c.termOrEmpty(v), Typ: phi.Type(), V: v}, nil
+					}
+				}
+				if v, ok := ev.fr.vals[phi]; ok {
+					return TV{T: c.termOrEmpty(v), Typ: phi.Type(), V: v}, nil
+				}
+			}
+		}
 	}
 	if v, ok := ev.vars[name]; ok {
 		return v, nil
@@ -330,6 +372,24 @@ func (ev *SpecEval) ident(name string) (TV, error) {
 func (ev *SpecEval) frameName(name string) (Val, types.Type, bool) {
 	fr := ev.fr
 	fn := fr.fn
+	if ev.header != nil {
+		for _, ins := range ev.header.Instrs {
+			phi, ok := ins.(*ssa.Phi)
+			if !ok {
+				break
+			}
+			if phi.Comment == name {
+				if ev.phis != nil {
+					if v, ok := ev.phis[phi]; ok {
+						return v, phi.Type(), true
+					}
+				}
+				if v, ok := fr.vals[phi]; ok {
+					return v, phi.Type(), true
+				}
+			}
+		}
+	}
 	for _, p := range fn.Params {
 		if p.Name() == name {
 			if v, ok := fr.vals[p]; ok {
@@ -346,6 +406,17 @@ func (ev *SpecEval) frameName(name string) (Val, types.Type, bool) {
 					return Val{T: ev.c.load(l, ev.st), Typ: pt.Elem()}, pt.Elem(), true
 				}
 				return v, fv.Type(), true
+			}
+		}
+	}
+	// entry value of a parameter the body reassigns: <name>0
+	if strings.HasSuffix(name, "0") && ev.header != nil {
+		base := strings.TrimSuffix(name, "0")
+		for _, p := range fn.Params {
+			if p.Name() == base {
+				if v, ok := fr.vals[p]; ok {
+					return v, p.Type(), true
+				}
 			}
 		}
 	}
@@ -446,7 +517,11 @@ func (ev *SpecEval) deref(v TV) (TV, error) {
 	} else {
 		l = ev.c.asLoc(Val{T: v.T, Typ: v.Typ}, v.Typ, ev.st)
 	}
-	return TV{T: ev.c.load(l, ev.st), Typ: pt.Elem()}, nil
+	r := TV{T: ev.c.load(l, ev.st), Typ: pt.Elem()}
+	if v.T != "" {
+		ev.closed(v.T, r.T, r.Typ)
+	}
+	return r, nil
 }
 
 func (ev *SpecEval) sel(x *SSel) (TV, error) {
@@ -483,7 +558,9 @@ func (ev *SpecEval) sel(x *SSel) (TV, error) {
 		if stt, ok := pt.Elem().Underlying().(*types.Struct); ok {
 			for i := 0; i < stt.NumFields(); i++ {
 				if stt.Field(i).Name() == x.Sel {
-					return TV{T: c.readField(ev.st, pt.Elem(), i, v.T), Typ: stt.Field(i).Type()}, nil
+					r := TV{T: c.readField(ev.st, pt.Elem(), i, v.T), Typ: stt.Field(i).Type()}
+					ev.closed(v.T, r.T, r.Typ)
+					return r, nil
 				}
 			}
 		}
@@ -517,8 +594,10 @@ func (ev *SpecEval) index(x *SIndex) (TV, error) {
 	switch t := typUnder(v.Typ).(type) {
 	case *types.Slice:
 		es := c.sorts.Of(t.Elem())
-		a := c.arr(ev.st, c.sorts.ElemArray(es), es)
-		return TV{T: fmt.Sprintf("(select (select %s (s_arr %s)) (+ (s_off %s) %s))", a, v.T, v.T, i.T), Typ: t.Elem()}, nil
+		a := c.arr(ev.st, c.sorts.ElemArrayT(t.Elem()), es)
+		r := TV{T: fmt.Sprintf("(select (select %s (s_arr %s)) (+ (s_off %s) %s))", a, v.T, v.T, i.T), Typ: t.Elem()}
+		ev.closed("(s_arr "+v.T+")", r.T, r.Typ)
+		return r, nil
 	case *types.Map:
 		_, _, vn, vs, _, _ := c.mapArrays(t, ev.st)
 		va := c.arr(ev.st, vn, vs)
@@ -571,7 +650,7 @@ func (ev *SpecEval) call(x *SCall) (TV, error) {
 		case *types.Basic:
 			return TV{T: "(strlen " + args[0].T + ")", Typ: tInt}, nil
 		case *types.Map:
-			ml := c.arr(ev.st, MapLen, "Int")
+			ml := c.arr(ev.st, c.sorts.MapLenT(typUnder(args[0].Typ).(*types.Map)), "Int")
 			return TV{T: fmt.Sprintf("(ite (= %s 0) 0 (select %s %s))", args[0].T, ml, args[0].T), Typ: tInt}, nil
 		}
 		return TV{}, fmt.Errorf("len of %v", args[0].Typ)
